@@ -60,6 +60,26 @@ CHECKS = {
    technique="TLA+ project builder with rule semantics (SchemaModel.tla, RuleSemantics.tla, SchemaModelExtra.tla): TLC enumerates every project with its demanded verdict; each printed and Check()ed",
    text="RuleSemantics.tla gives the documented meaning of min/max (with exclusivity), precision, minLength/maxLength, regex, minItems/maxItems over catalogues with exact decimal denotations (boundary neighbours 9.99/10/10.0/10.00/10.01/10.001, -0/0, lengths around limits, escapes) and sanity lemmas; SchemaModel.tla builds, by builder actions, every project skeleton (root, property, array item, `or` rule-set, type reference, type reference inside `or`) x value x canonical rule subset and computes the verdict over every example value (the type's own example included); SchemaModelExtra.tla does the same for enum, const, nullable, string formats and two-alternative `or`, printing the schema text in TLA+. ~100k (quick) / ~1M (thorough) projects are replayed: a violating example accepted, or a satisfying one rejected with a value-reason code, is a violation.",
    note="Accept-expected projects answered with a structural code are inconclusive (the model's compatibility table was calibrated until they are 0.01%). A value referring to a type is generated with the JSON kind of the type's example; null examples of nullable nodes have no verdict. Regex/format semantics on catalogue samples only."),
+ "C03": dict(
+   category="model_checking", design_ref="DESIGN.md §3 C03",
+   technique="TLA+ pushdown generator of well-formed JSON documents (JsonGen.tla) with TLC-checked balance invariants; every document rendered under whitespace layouts and replayed as a schema, compared with encoding/json",
+   text="JsonGen.tla is a pushdown machine whose finished behaviours are exactly the well-formed documents (no exponents, no duplicate keys) over catalogues of scalars and keys covering every escape form, surrogate pairs, non-ASCII, -0, 0.10, empty containers; TLC checks Balanced/NoDanglingKey and emits ~50k (quick) / ~2M (thorough) documents. Each is rendered under 7 whitespace layouts (none, space, tab, LF, CRLF, CR, mixed) and given to jschema: accepted; Example() decoded order-preservingly equals the input value (keys incl. escapes, order, literals as exact decimals); GetAST() has the same shape with decoded keys and values. The repository's own RFC 8259 literals are replayed too.",
+   note="encoding/json is the independent decoder the property names. Two non-ASCII catalogue entries are substituted by the harness (TLC cannot print non-ASCII)."),
+ "C04": dict(
+   category="model_checking", design_ref="DESIGN.md §3 C04",
+   technique="TLA+ project builder with the expected AST (SchemaText.tla: AstOf) emitted by TLC; harness printer renders each project under all annotation placements; GetAST() compared with AstOf",
+   text="SchemaText.tla builds projects from menus of values (scalars, references, choices, nested arrays/objects, key shortcuts, escaped keys) and annotations (every rule kind, nested or/enum/allOf lists, 2^64+1 values, notes) and defines AstOf: one node per example element in source order with kind, key, shortcut flag, decoded value or reference text, note and the ordered rule list with values. TLC checks OneNodePerElement and emits every project with its AST; the harness prints each under inline //, /* */ and multi-line placements x quoted/bare rule names and compares GetAST() (normalised; library-generated reference rules excluded) field by field.",
+   note="The printer (model.Layout.Print) is trusted. Projects the library rejects (e.g. values above the integer range after the fix) have no AST and are counted inconclusive. A type name as rule value may be reported as string or reference."),
+ "C14": dict(
+   category="model_checking", design_ref="DESIGN.md §3 C14",
+   technique="TLA+ layout space (Layout.tla, 648 layouts reached by toggle actions) x SchemaText.tla projects; metamorphic comparison of all observables within each orbit, plus context-free transformations of the repository corpus",
+   text="Layout.tla enumerates the presentation vectors (line ends x annotation style x quoted rule names x padding x # and ### user comments x leading/trailing blank lines); every SchemaText project is printed under the plain layout and a seeded sample (24 quick / 160 thorough) of the others: verdict and error code, AST (notes modulo blank runs), example, used types and OpenAPI JSON must be identical. Every schema-like literal of the repository's tests is compared with its CRLF, CR, leading-blank, trailing-blank and trailing-space variants.",
+   note="The printer only produces layouts that keep each annotated element alone on its line and comments on their own line or after an unannotated value. Texts that stop in the middle of an element (code 303) are excluded from the trailing transformations."),
+ "C15": dict(
+   category="model_checking", design_ref="DESIGN.md §3 C15",
+   technique="laws stated in TLA+ (LenLaws.tla); observations (S, T) recorded from the real code validated line by line by TLC",
+   text="For each schema text S (printed SchemaText projects under 5 layouts incl. comments and CRLF/CR, root forms: references, choices, annotated scalars, containers; schema literals of the repository's tests) and follow-up T (every first byte except / and # x 8 rests) the harness records len(S), Len(S), verdicts and ASTs of S and S[:Len(S)], Len of the prefix and Len(S.newline.T); TLC validates every record against the four laws of LenLaws.tla.",
+   note="S without a root value (blank, comment or annotation only) is skipped. The prefix law is demanded of accepted S and of rejected S that Len() covers entirely (a rejected S with text after the value is itself 'a larger text'). S that stops inside a user comment is not complete."),
 }
 
 REASON_PENDING = "check not built yet in this round (design in DESIGN.md §3); no claim is made"
